@@ -18,6 +18,12 @@ CHECKS = {
         note="Trusted base: vlib/gen_expr.rev evaluator, brute-force enumeration, vlib/sexp + vlib/fakesolver as a correct external solver (cross-checked against refz3). Real Sugar/csugar/cspuz_core binaries are not available offline. 9/9 sensitivity mutants caught.",
         design_ref="3/C02",
     ),
+    "C03": dict(
+        technique="Hypothesis-generated programs with captured solver input parsed by an independent S-expression reader (translation validation by truth functions), scripted protocol replies, and end-to-end differential runs through a stand-in solver",
+        text="(1) The exact text handed to the external solver (extension-module call or subprocess stdin) is captured for all five backend names in both modes, parsed by vlib/sexp (written from the Sugar syntax) and compared with the Solver: declarations as a set with domains, the # line with the registered keys, and the constraint lines as a multiset of truth functions over all (domain product <= 512) or 48 sampled assignments; native graph atoms are compared with the intended graph predicate of the generated graph and flags. (2) Scripted well-formed replies of both formats of CspuzSugarInterface.java (negative integers, ids >= 10, arbitrary decided subsets, Java order and permuted) must land in the right sol fields with the right Python types. (3) The C01 oracle is re-run through the stand-in under all five names, a subset through a real subprocess. Exploration (sampled).",
+        note="Trusted base: vlib/sexp, vlib/refsem, vlib/fakesolver; the Java file is read as the specification of the reply format (not executed, no Sugar jar offline). Constraint line order is not asserted. 15/15 sensitivity mutants caught.",
+        design_ref="3/C03",
+    ),
     "C12": dict(
         technique="Hypothesis-generated operator/operand-kind/shape cases evaluated element by element with a reference evaluator; ill-formed uses must raise",
         text="Every operator form of the four array classes (array-array, array-scalar, scalar-array incl. reflected forms, Python literals, unary, then/cond as methods and as free functions) on 1-D/2-D shapes incl. empty and 1xN is executed; each result element is evaluated under generated assignments and compared with the Python operator applied to the evaluated operands in written order; result class and shape are checked; ill-typed and ill-shaped uses must raise. Helpers take generated nested arguments (lists, tuples, generators, arrays, literals, empty); conv2d for all window sizes 1..dim+1; four_neighbors on every cell of shapes up to 4x4. Exploration (sampled).",
